@@ -169,10 +169,11 @@ def blocking(ctx):
     params = [x.name for x in fi.params]
     ty = Typer(fi, params[0], params[1])
     ty.run(fi.node.body)
-    rets = [n for n in ast.walk(fi.node) if isinstance(n, ast.Return)]
-    if not rets or not isinstance(rets[-1].value, ast.Tuple) or len(rets[-1].value.elts) != 2:
+    from ..model import returned_values
+    rets = [v_ for _, v_ in returned_values(fi.node)]
+    if not rets or not isinstance(rets[-1], ast.Tuple) or len(rets[-1].elts) != 2:
         raise AnalysisError("blocking_analysis: unmodelled return")
-    mean_t, err_t = (ty.ty(e) for e in rets[-1].value.elts)
+    mean_t, err_t = (ty.ty(e) for e in rets[-1].elts)
     ctx.ob("HOMOG-1", "blocking_analysis: every sum / difference joins terms of equal weight-degree",
            not ty.problems, "; ".join(f"line {l}: {m}" for l, m in ty.problems[:3]) or
            f"{len(ty.env)} typed variables", fi)
@@ -274,12 +275,42 @@ def pairing_blocking(ctx, fi):
     ok_geo = False
     if bw_name is not None:
         lo, hi = sl_w.args[0], sl_w.args[1]
-        m1 = m_binop(lo, "*")
-        m2 = m_binop(hi, "*")
-        if m1 is not None and m2 is not None:
-            jv, iv = m1
-            p1 = m_binop(strip_wrappers(m2[0]), "+")
-            ok_geo = p1 is not None and p1[0] is jv and is_const(p1[1], 1) and m2[1] is iv and j_w is jv
+
+        def poly(t):
+            """polynomial normal form over opaque atoms: {sorted tuple of atom uids: coefficient}"""
+            t = strip_wrappers(t)
+            if t.op == "const" and isinstance(t.args[0], (int, float)) and not isinstance(t.args[0], bool):
+                return {(): t.args[0]} if t.args[0] != 0 else {}
+            if t.op == "binop" and t.args[0] in ("+", "-"):
+                a_, b_ = poly(t.args[1]), poly(t.args[2])
+                out = dict(a_)
+                for k_, v_ in b_.items():
+                    out[k_] = out.get(k_, 0) + (v_ if t.args[0] == "+" else -v_)
+                return {k_: v_ for k_, v_ in out.items() if v_ != 0}
+            if t.op == "binop" and t.args[0] == "*":
+                a_, b_ = poly(t.args[1]), poly(t.args[2])
+                out = {}
+                for k1, v1 in a_.items():
+                    for k2, v2 in b_.items():
+                        k_ = tuple(sorted(k1 + k2))
+                        out[k_] = out.get(k_, 0) + v1 * v2
+                return {k_: v_ for k_, v_ in out.items() if v_ != 0}
+            return {(t.uid,): 1}
+
+        pl, ph = poly(lo), poly(hi)
+        m1 = None
+        if len(pl) == 1 and list(pl.values()) == [1] and len(next(iter(pl))) == 2:
+            mono = next(iter(pl))
+            ju = strip_wrappers(j_w).uid
+            if ju in mono:
+                iu = [u for u in mono if u != ju] or [ju]
+                want_hi = dict(pl)
+                want_hi[(iu[0],)] = want_hi.get((iu[0],), 0) + 1
+                if ph == want_hi:
+                    m1 = True
+                    iv = next((x for x in subterms(lo) if x.uid == iu[0]), None)
+        if m1 and iv is not None:
+            ok_geo = True
             nb = None
             for e in ev.events:
                 if e.kind == "assign" and e.loops and m_binop(strip_wrappers(e.data[1]), "//") is not None:
